@@ -252,6 +252,7 @@ example :
       { aac := true, sampleRate := 44100, sampleSize := 16, channels := 2, dataRate := 0, asc := [0x12, 0x10] }
     let frames : List Frame := [⟨1, 21000000, 21000000, [0x21]⟩, ⟨0, 40000000, 80000000, [0x65, 0x88]⟩,
       ⟨1, 44000000, 44000000, []⟩, ⟨0, 2147483647000000, 2147483607000000, [0x41]⟩, ⟨7, 0, 0, []⟩]
+    hevcFaithful vm = true ∧
     ∀ f ∈ fromStart (srcOf vm am) 1 frames, carried (srcOf vm am) f = true → FrameOk f := by decide
 
 /-- non-vacuity for H.265: a real camera's VPS/SPS (the vectors of av/codec/hevc/*_test.go) with the
